@@ -161,6 +161,23 @@ def generate(g, tier):
         c = script_case(g, lines, g.chance(0.4))
         c['meta'] = dict(c['meta'], family='script-separator-chars', nocorr=True)
         cases.append(c)
+    # a script given as ONE string whose lines end sometimes in LF and sometimes in CR LF (a file edited on two systems, pasted into an
+    # API call): for commands that strip their argument the carriage return is trailing white space — the lines are the same lines
+    NONSTRIP = ('STRING', 'STRINGLN', 'REM', 'ALTSTRING', 'ALTCODE')
+    for _ in range(count(tier, 60, 500)):
+        lines = []
+        while len(lines) < g.r.randint(2, 10):
+            l = gen_line(g)
+            if l[0].split()[0].upper().lstrip('$') in NONSTRIP or l[1][0] == 'rem': continue
+            lines.append(l)
+        ends = [g.r.choice(['\n', '\r\n']) for _ in lines]
+        if g.chance(0.5): ends[0] = '\r\n'
+        text = ''.join(l + e for (l, _), e in zip(lines, ends))
+        if g.chance(0.5): text = text.rstrip('\r\n')
+        c = script_case(g, lines, False)
+        c['src'] = dict(text=text)
+        c['meta'] = dict(c['meta'], family='script-mixed-line-ends', nocorr=True)
+        cases.append(c)
     # long scripts: every line passes through, however many there are
     n = 30000 if tier == 'quick' else 120000
     big = [gen_line(g) for _ in range(50)]
